@@ -20,6 +20,21 @@ func vC03Clamp(m Message, msize int) Message {
 // vC03Check reads one frame from ch and compares the outcome with the
 // reference framing rule applied to (size, avail bytes after the prefix).
 // It returns false when the stream is no longer in a defined state.
+// messages delivered so far, with the message each must (still) be: a message
+// handed to the caller must not change when later frames are read
+type vC03HeldMsg struct {
+	fc   *Fcall
+	want Message
+}
+
+var vC03Held []vC03HeldMsg
+
+func vC03Recheck() {
+	for _, h := range vC03Held {
+		vAssert(vMsgEq(h.want, h.fc.Message), "C03: a delivered message depends only on its own frame's bytes (it does not change when later frames are read)")
+	}
+}
+
 func vC03Check(ch Channel, size uint32, after []byte, msize int) bool {
 	fc := new(Fcall)
 	err := ch.ReadFcall(vBG, fc)
@@ -55,6 +70,7 @@ func vC03Check(ch Channel, size uint32, after []byte, msize int) bool {
 	vAssert(err == nil, "C03: well-formed frame within msize yields its message")
 	vAssert(vAnd(fc.Type == want.Type, fc.Tag == want.Tag), "C03: type and tag of the frame")
 	vAssert(vMsgEq(vC03Clamp(want.Message, msize), fc.Message), "C03: message decoded from exactly this frame's bytes")
+	vC03Held = append(vC03Held, vC03HeldMsg{fc, vC03Clamp(want.Message, msize)})
 	vObserve("type", uint8(fc.Type))
 	vReach("c03.ok")
 	return true
@@ -83,6 +99,7 @@ const vC03NSmall = 6
 // message cut short by 0..5 bytes or followed by extra bytes, so that sizes
 // around the true length (where stale buffer bytes could leak) are reached.
 func vC03Framing(msize int, ssel int) {
+	vC03Held = nil
 	kind, msg := vC03SmallMsg(ssel)
 	enc := refEncode(kind, Tag(ndU16("tag")), msg)
 	cut := ndChoice("cut", 7) // 0..5 bytes removed, 6 = two extra bytes appended
@@ -150,9 +167,11 @@ func vC03Resync(msize int, sh *vShape, nsmall int) {
 	conn := &vCaptureConn{in: append(append([]byte(nil), f1...), f2...)}
 	conn.chunk = []int{0, 1, 3}[ndChoice("chunk", 3)]
 	ch := NewChannel(conn, msize)
+	vC03Held = nil
 	if vC03Check(ch, f1size, append(append([]byte(nil), f1after...), f2...), msize) {
 		ok := vC03Check(ch, uint32(len(body2)+4), body2, msize)
 		vAssert(ok, "C03: second frame processed")
+		vC03Recheck()
 		vReach("c03.resync")
 	}
 }
@@ -260,18 +279,21 @@ func vC03Stream(msizes []int, k int, nsizes int, nkinds int, chunks []int) {
 		frames = append(frames, fr{uint32(len(f)), enc})
 	}
 	ch := NewChannel(conn, msize)
+	vC03Held = nil
 	for _, f := range frames {
 		if !vC03Check(ch, f.size, f.after, msize) {
 			break
 		}
 	}
+	vC03Recheck()
 	vReach("c03.stream")
 }
 
 func VerifC03_StreamQuick() { vC03Stream([]int{4097, 8192}, 3, 5, 2, []int{0, 1500}) }
 func VerifC03_StreamThorough() {
-	vC03Stream([]int{300, 4096, 4097, 8192, 16384, 65536}, 3, 7, 3, []int{0, 7, 1500})
+	vC03Stream([]int{4096, 4097, 8192, 16384, 65536}, 3, 7, 3, []int{0, 1500})
 }
+func VerifC03_StreamSmall() { vC03Stream([]int{300}, 3, 7, 3, []int{0, 7}) }
 func VerifC03_Stream4() { vC03Stream([]int{4097, 16384}, 4, 5, 2, []int{0}) }
 
 // msize lowered BETWEEN two reads (as version negotiation does) while the
@@ -295,8 +317,10 @@ func VerifC03_LoweredBetween() {
 		conn.chunk = len(fa) + 6
 	}
 	ch := NewChannel(conn, 64)
+	vC03Held = nil
 	vC03Check(ch, uint32(len(fa)), encA, 64)
 	ch.SetMSize(lower)
 	vC03Check(ch, uint32(len(fb)), encB, lower)
+	vC03Recheck()
 	vReach("c03.loweredbetween")
 }
